@@ -19,7 +19,7 @@ from .interp import Interp
 
 class Contract:
     def __init__(self, qualname, spec=None, pre=None, cases=None, compare=None, props=None,
-                 result_eq=None, doc="", ghost_link=None, post_hook=None):
+                 result_eq=None, doc="", ghost_link=None, post_hook=None, use_at_calls=True):
         self.qualname = qualname
         self.spec = spec
         self.pre = pre
@@ -29,6 +29,7 @@ class Contract:
         self.result_eq = result_eq
         self.ghost_link = ghost_link
         self.post_hook = post_hook
+        self.use_at_calls = use_at_calls   # False: proved for its cases, inlined at call sites
         self.doc = doc
 
     # ---- use at a call site ------------------------------------------------------------------
